@@ -3,14 +3,18 @@
 diff="$1"; shift
 cd /repo || exit 9
 if ! git diff --quiet; then echo "/repo not clean"; exit 9; fi
-if ! git apply --check "$diff" 2>/dev/null; then
-  if ! git apply --3way --check "$diff" 2>/dev/null; then echo "patch does not apply: $diff"; exit 8; fi
+if git apply --check "$diff" 2>/dev/null; then
+  git apply "$diff"
+else
+  if ! git apply --3way "$diff" >/dev/null 2>&1 || git diff --name-only --diff-filter=U | grep -q .; then
+    git reset -q --hard HEAD; echo "patch does not apply cleanly: $diff"; exit 8
+  fi
+  git reset -q   # unstage, keep working tree changes
 fi
-git apply "$diff" 2>/dev/null || git apply --3way "$diff"
 cd /verif
 for pid in "$@"; do
   out=$(./check "$pid" --tier "${TIER:-quick}" 2>&1); rc=$?
   echo "== $pid rc=$rc $(echo "$out" | grep -c '^VIOLATION') violation(s)"
   echo "$out" | grep -E "^VIOLATION|^  role|^INCONCLUSIVE|^KNOWN" | cut -c1-300 | head -${LINES_SHOWN:-6}
 done
-git -C /repo checkout -- . ; git -C /repo status --short | head -3
+git -C /repo reset -q --hard HEAD; git -C /repo status --short | head -3
